@@ -9,48 +9,21 @@ TB_COMMON = [
 ]
 
 QUEUES_DIFF = dict(
-    name='queues', pkg='./internal/queues/', test='TestVerifDiff',
+    name='queues', pkg='./internal/queues/', test='TestVerifDiff', timeout=240,
     files={'internal/queues/zz_verif_diff_test.go': 'go/harness/queues/zz_verif_diff_test.go'},
     env={'VERIF_EPISODES': 40, 'VERIF_BIGOPS': 6000})
 
 MANAGER_DIFF = dict(
-    name='manager', pkg='./internal/helpers/', test='TestVerifManagerDiff',
+    name='manager', pkg='./internal/helpers/', test='TestVerifManagerDiff', timeout=240,
     files={'internal/helpers/zz_verif_manager_test.go': 'go/harness/helpers/zz_verif_manager_test.go'},
     env={'VERIF_EPISODES': 300})
 
 CODEC_DIFF = dict(
-    name='codec', pkg='./', test='TestVerifCodecDiff',
+    name='codec', pkg='./', test='TestVerifCodecDiff', timeout=240,
     files={'zz_verif_codec_test.go': 'go/harness/root/zz_verif_codec_test.go'},
     env={'VERIF_CODEC_CASES': 4000, 'VERIF_CODEC_E2E': 25})
 
 PURE = {
-    'C12': dict(
-        module='Properties.C12', file='Properties/C12.v',
-        diffs=[CODEC_DIFF], params={},
-        footprint=['CJ', 'CP', 'CA', 'CM', 'validator:'],
-        oracle_kinds=['codec.'],
-        rule='records = observed job.Json() bytes for generated ids (every escape class of encoding/json, all of ASCII, '
-             'U+2028/9, 2/3/4-byte runes, empty, long, injection-like; a separate stream with malformed UTF-8) x 5 statuses '
-             'x payloads of 16 Go types; parseToJob[T] on those bytes; Add on stub persistent/priority/distributed queues '
-             '(entry handed to Enqueue); parseToJob[json.RawMessage] on hand-made/mutated entries (truncation, byte edits, '
-             'bad escapes, unknown status, wrong field types, extra/missing/reordered/case-folded keys, white space). '
-             'Each record is replayed on the extracted model (encode_env, encode_env_bytes, decode_env, submit_entry). '
-             'Where the strict-shape model says Malformed and Go accepts a foreign layout, or the typed payload does not '
-             'fit T, the record is counted out_of_model (#CODEC line), not a mismatch; '
-             'distinct_nontrivial = number of distinct checked record lines',
-        trusted_base=TB_COMMON + [
-            'go/harness/root/zz_verif_codec_test.go (generator, recorder, Go oracles)',
-            'ocaml/v_codec.ml scan_value: JSON value recogniser supplied as the model\'s scan_payload',
-            'modelled, not verified: encoding/json appendString / scanner string states / unquoteBytes and '
-            'unicode/utf8.DecodeRune of go1.24.0 (Codec.v, tied by the differential test)'],
-        assumptions=[
-            'scan_payload_splits_marshal_output: encoding/json, at a payload json.Marshal produced and followed by the '
-            'envelope\'s closing brace, consumes exactly that payload (payload encode/decode itself is encoding/json\'s; '
-            'payload fidelity = JSON round trip is checked only by the Go oracle)',
-            'ids are valid UTF-8 (otherwise C12_arbitrary_id_bytes: each malformed byte comes back as U+FFFD)',
-            'job status is one of the five constants (Status() "Unknown" is unreachable)',
-            'system level (event loop continues after a decode error, order of the jobs behind a bad entry, acknowledgement): controlled-scheduler family persist'],
-    ),
     'C15': dict(
         module='Properties.C15', file='Properties/C15.v',
         diffs=[MANAGER_DIFF],
@@ -131,7 +104,9 @@ CONC = {
     'C01': dict(module='Properties.C01', file='Properties/C01.v', slices=['job'],
                 families=['burst', 'lifecycle', 'cancel', 'batch', 'saturate', 'persist', 'recover', 'dist', 'multiq', 'pool', 'order'],
                 quick_episodes=150, thorough_episodes=2000, crash_props=['C03'],
-                rule=SLICE_JOB_RULE, trusted_base=TB_CONC,
+                diffs=[QUEUES_DIFF], diff_footprint=['E', 'D', 'V', 'S', 'PV', 'H+', 'H-', 'HV', 'HPV', 'validator:'],
+                diff_oracles=['fifo.lost', 'fifo.order', 'fifo.enqueue-result', 'heap.lost', 'heap.order', 'heap.enqueue-result'],
+                rule=SLICE_JOB_RULE + '; plus the queue differential test of C04 (an element accepted by a queue is handed out exactly once)', trusted_base=TB_CONC,
                 assumptions=['job-level theorem: each enqueued job is handed out by its queue at most once (Fifo/Heap refinement theorems, C04) and each payload sent to a pool node is received at most once (channel semantics)',
                              '"eventually runs" is the progress property C03; identity of ID/data: monitors + C12']),
     'C05': dict(module='Properties.C05', file='Properties/C05.v', slices=['job'],
@@ -163,6 +138,31 @@ CONC = {
                 trusted_base=TB_CONC + ['the recording adapter stands for any user adapter (its own bookkeeping of pending / unacknowledged / acknowledged is the specification)'],
                 assumptions=['the adapter keeps a delivered item until Acknowledge succeeds for the id issued with that delivery (adapter contract)',
                              'an entry that cannot be decoded, or whose acknowledgement is refused, stays unacknowledged (redelivered after a crash)']),
+    'C12': dict(module='Properties.C12', file='Properties/C12.v', slices=['job'],
+                families=['persist', 'recover'],
+                quick_episodes=300, thorough_episodes=4000,
+                diffs=[CODEC_DIFF], diff_footprint=['CJ', 'CP', 'CA', 'CM', 'validator:'], diff_oracles=['codec.'],
+                rule='records = observed job.Json() bytes for generated ids (every escape class of encoding/json, all of ASCII, '
+             'U+2028/9, 2/3/4-byte runes, empty, long, injection-like; a separate stream with malformed UTF-8) x 5 statuses '
+             'x payloads of 16 Go types; parseToJob[T] on those bytes; Add on stub persistent/priority/distributed queues '
+             '(entry handed to Enqueue); parseToJob[json.RawMessage] on hand-made/mutated entries (truncation, byte edits, '
+             'bad escapes, unknown status, wrong field types, extra/missing/reordered/case-folded keys, white space). '
+             'Each record is replayed on the extracted model (encode_env, encode_env_bytes, decode_env, submit_entry). '
+             'Where the strict-shape model says Malformed and Go accepts a foreign layout, or the typed payload does not '
+             'fit T, the record is counted out_of_model (#CODEC line), not a mismatch; '
+             'distinct_nontrivial = number of distinct checked record lines' + '; system level: families persist / recover under the controlled scheduler (foreign producers store undecodable entries among valid ones; every valid job must still run, with its id and payload, and the adapter must be drained)',
+                trusted_base=TB_COMMON + [
+            'go/harness/root/zz_verif_codec_test.go (generator, recorder, Go oracles)',
+            'ocaml/v_codec.ml scan_value: JSON value recogniser supplied as the model\'s scan_payload',
+            'modelled, not verified: encoding/json appendString / scanner string states / unquoteBytes and '
+            'unicode/utf8.DecodeRune of go1.24.0 (Codec.v, tied by the differential test)'] + TB_CONC[4:],
+                assumptions=[
+            'scan_payload_splits_marshal_output: encoding/json, at a payload json.Marshal produced and followed by the '
+            'envelope\'s closing brace, consumes exactly that payload (payload encode/decode itself is encoding/json\'s; '
+            'payload fidelity = JSON round trip is checked only by the Go oracle)',
+            'ids are valid UTF-8 (otherwise C12_arbitrary_id_bytes: each malformed byte comes back as U+FFFD)',
+            'job status is one of the five constants (Status() "Unknown" is unreachable)',
+            'system level (event loop continues after a decode error, order of the jobs behind a bad entry, acknowledgement): controlled-scheduler family persist']),
     'C14': dict(module='Properties.C14', file='Properties/C14.v', slices=['life'],
                 families=['lifeseq', 'lifecycle'],
                 quick_episodes=1200, thorough_episodes=15000,
